@@ -4,6 +4,7 @@ Driver operations: each request line is answered by running the *model* function
 -/
 import ZkVerif.Exec.Proto
 import ZkVerif.Model.Schnorr
+import ZkVerif.Model.Arith
 namespace ZkVerif.Ops
 open ZkVerif ZkVerif.Proto
 
@@ -32,8 +33,27 @@ def tSig (σ : Sig Fq) : String := join [tS σ.s1, tS σ.s2]
 def tKeyPair (kp : KeyPair Fq Fq Fq) : List String :=
   [tS kp.sk.x, tL kp.sk.ys, tS kp.sk.x1, tS kp.pk.g1, tL kp.pk.y1s, tS kp.pk.g2, tS kp.pk.x2, tL kp.pk.y2s]
 
+def tErr : Err → String
+  | .amountTooLarge v => join [tV "amount-too-large", tN v]
+  | .insufficientFunds => tV "insufficient-funds"
+
+def tRes {α : Type} (f : α → String) : Res α → String
+  | .ok a => join [tV "ok", f a]
+  | .err e => tErr e
+  | .panic => tV "panic"
+
 def dispatch (args : List String) : Option String :=
   match args with
+  -- balance / amount arithmetic (C17); amounts arrive as the u64 image of the i64 (two's complement)
+  | ["bal-new", v] => do pure (tRes tN (balanceTryNew (← parseHex v)))
+  | ["pay-merchant", a] => do pure (tRes tI (payMerchant (← parseHex a)))
+  | ["pay-customer", a] => do pure (tRes tI (payCustomer (← parseHex a)))
+  | ["apply-payment", cb, mb, amt] => do
+      pure (tRes (fun (p : Nat × Nat) => join [tN p.1, tN p.2]) (applyPayment (← parseHex cb) (← parseHex mb) (i64OfU64 (← parseHex amt))))
+  | ["try-add", mb, cb] => do pure (tRes tN (tryAdd (← parseHex mb) (← parseHex cb)))
+  | ["amt-scalar", a] => do pure (tRes tS (amountToScalar (F := Fq) (i64OfU64 (← parseHex a))))
+  | ["amt-scalar-legacy", a] => do pure (tRes tS (Legacy.amountToScalar (F := Fq) (i64OfU64 (← parseHex a))))
+  | ["bal-scalar", v] => do pure (tS (balanceToScalar (F := Fq) (← parseHex v)))
   -- Pointcheval–Sanders (C07, C08, C19)
   | ["ps-verify", g1, y1s, g2, x2, y2s, s1, s2, ms] => do
       let pk := mkPk (← parseFq g1) (← parseList y1s) (← parseFq g2) (← parseFq x2) (← parseList y2s)
